@@ -1158,7 +1158,10 @@ fn classify_stuck(run: &RingRun, t0: Us) -> Option<(&'static str, String)> {
     }
     // (b) misaligned listener
     for st in run.world.stations.iter() {
-        if !st.running || st.fdl.is_in_ring() || st.fdl.verif_probe().state != "ListenToken" {
+        // (a station that merely listens: waiting to be admitted, or -- dropped by the others without
+        //  knowing it -- waiting in ActiveIdle for a token that never comes)
+        let state = st.fdl.verif_probe().state;
+        if !st.running || !(state == "ListenToken" || state == "ActiveIdle") {
             continue;
         }
         let rx = bus.peek_rx(st.phy.port);
